@@ -122,6 +122,11 @@ def layer_a_mask_units(quick: bool) -> List[Tuple[str, List[Dict[str, Any]]]]:
                         vals = [v.to_bytes(n // 8, "big") for v in vals_i]
                     progs.append(one_value_program(pid, {"dct": std(base, n, None, order, mask=mask)}, None, None, vals,
                                                    ("mask", base, f"n{n}")))
+                    if order and n in (8, 16) and mask in (0x0F, 0x3C, 0x0FF0, 0x8001):
+                        # IS-CONDENSED: only the static metadata (C08) has an expectation here; the wire format of
+                        # condensed masks is outside the reference's envelope (DontCare)
+                        progs.append(one_value_program(pid + "_c", {"dct": std(base, n, None, order, mask=mask, condensed=True)}, None, None,
+                                                       vals[:4], ("mask-condensed", base, f"n{n}")))
     return [("A/mask", progs)]
 
 
